@@ -54,6 +54,9 @@ CHECKS = {
  'C17': ('exploration', 'ovl', 'reference policy (zxcvbn called directly) as oracle over all write paths incl. the built binary, with directory snapshots; sandwich oracle over condition strings',
          'Every write path (interface init/add/update, HTTP add/update by admin, own session and old password, CLI init/add/update of the binary, login-triggered upgrade) x condition kinds/thresholds x a password corpus x user names: refused exactly when the reference verdict fails, refused requests leave the directory identical; about 85 malformed or borderline condition strings and unknown types must stop constructor, NewStore and the binary, or be enforced with the written value.',
          'zxcvbn library trusted (the property defines the policy by it).', '5 C17'),
+ 'C19': ('exploration', 'ovl', 'online trace-specification checker over the sequence-numbered hook event log (notify/timer/round/exec/kill) plus boundary observations written by the hook scripts themselves',
+         'Notification timing patterns around the rate-limit timer (incl. a second change arriving while a round is being started, both notify/timer orders at the boundary) are driven against an in-package HooksCaller with a short rate limit; rules on the logical event order: every send is followed by a start of every eligible hook, rounds only after notify(pending=0) or timer(pending>1), at most two rounds between timer events, timer never early, each round starts exactly the eligible set; eligibility over all file-type/permission layouts incl. a directory made world-writable after start; agent wiring counts exactly one notification per successful mutation; a hanging hook never delays requests (thorough: killed not before 60 s).',
+         'Decided on logical events; the abstract-model exploration mentioned in the anchors is replaced by driven timing patterns (evidence lists the distinct event sequences observed).', '5 C19'),
 }
 
 def main():
